@@ -72,7 +72,7 @@ VARIABLES s, stim, phase,
 vars == <<s, stim, phase, u>>
 
 Init == /\ phase = "pick1"
-        /\ stim = [outer |-> "none", pre |-> <<>>, mid |-> <<>>, post |-> <<>>, n |-> 0]
+        /\ stim = [outer |-> "none", pre |-> <<>>, mid |-> <<>>, post |-> <<>>, n |-> 0, cuts |-> {}]
         /\ s = FreshState(<<>>, 0)
         /\ u = FreshState(<<>>, 0)
 
@@ -120,24 +120,42 @@ PickLimit ==
     /\ \E c \in LimitShapes : stim' = [stim EXCEPT !.mid = c]
     /\ phase' = "start" /\ UNCHANGED <<s, u>>
 
+\* ---- multi-call family (C12): the same program delivered in 2-3 Execute calls, split at
+\* token boundaries (also inside an unfinished procedure body); u runs the unsplit program
+HasStop(c) == \E j \in 1..Len(c) : c[j] \in {"stop"}
+RECURSIVE InsertEoc(_, _, _)
+InsertEoc(toks, cuts, j) ==      \* an end-of-call marker after token j for every j in cuts
+    IF j > Len(toks) THEN <<>>
+    ELSE <<toks[j]>> \o (IF j \in cuts THEN <<EndCall>> ELSE <<>>) \o InsertEoc(toks, cuts, j + 1)
+PickCalls ==
+    /\ Family = "calls" /\ phase = "pick1"
+    /\ \E o \in {"none", "repeat2"}, c \in {x \in Ctl1 : ~HasStop(x)} :
+          \E a \in 1..(Len(Wrap(o, c)) - 1) : \E b \in {0} \cup ((a + 1)..(Len(Wrap(o, c)) - 1)) :
+             /\ (Tier = "quick" => (b = 0 \/ b = a + 2))
+             /\ stim' = [stim EXCEPT !.outer = o, !.mid = c, !.pre = <<>>, !.post = <<>>, !.cuts = {a, b} \ {0}]
+    /\ phase' = "start" /\ UNCHANGED <<s, u>>
+
 PickBudget ==
     /\ Family = "budget"
     /\ phase = "pick1"
     /\ \E o \in {"none", "loop", "repeat2"}, c \in Ctl1, b \in 1..MaxBudget :
           stim' = [stim EXCEPT !.outer = o, !.mid = c, !.n = b]
     /\ phase' = "start" /\ UNCHANGED <<s, u>>
+Feed0(st) == IF Family = "calls" THEN InsertEoc(Toks(Program(st)), st.cuts, 1) ELSE Toks(Program(st))
 Start == /\ phase = "start"
          /\ phase' = "run"
-         /\ s' = FreshState(Toks(Program(stim)), IF Family = "budget" THEN stim.n ELSE 0)
-         /\ u' = IF Family = "budget" THEN FreshState(Toks(Program(stim)), 0) ELSE u
+         /\ s' = FreshState(Feed0(stim), IF Family = "budget" THEN stim.n ELSE 0)
+         /\ u' = IF Family \in {"budget", "calls"} THEN FreshState(Toks(Program(stim)), 0) ELSE u
          /\ UNCHANGED stim
 Run == /\ phase = "run" /\ s.status = "running"
        /\ s' = IF s.nops > StepBound THEN Skip(s) ELSE Step(s)
-       /\ u' = IF Family = "budget" /\ u.status = "running" THEN Step(u) ELSE u
+       /\ u' = IF Family = "budget" /\ u.status = "running" THEN Step(u)
+               ELSE IF Family = "calls" THEN u     \* the unsplit twin is run to its end when needed (RunToEnd)
+               ELSE u
        /\ UNCHANGED <<stim, phase>>
-Next == PickCtl \/ PickLook \/ PickBudget \/ PickLimit \/ Start \/ Run
+Next == PickCtl \/ PickLook \/ PickBudget \/ PickLimit \/ PickCalls \/ Start \/ Run
 
-Vector == [prog |-> Toks(Program(stim)), init |-> <<>>, maxops |-> s.maxops,
+Vector == [prog |-> Feed0(stim), init |-> <<>>, maxops |-> s.maxops,
            status |-> s.status, errs |-> s.errs, ost |-> s.ost, dst |-> s.dst,
            heap |-> s.heap.c, nheap |-> s.heap.n, nops |-> s.nops, steps |-> s.nops]
 Emit == (phase = "run" /\ s.status \in {"done", "error"}) => CSVWrite("%1$s", <<ToJson(Vector)>>, OutFile)
@@ -146,6 +164,17 @@ ASSUME JsonSerialize(BaseFile, [heap |-> FreshHeap, nfixed |-> NFixed])
 (***************************************************************************)
 (* Design-level properties of the machine, checked on every behaviour.     *)
 (***************************************************************************)
+\* Feeding a program in several calls, split at token boundaries, is equivalent to feeding
+\* the concatenation in one call: same final stacks, heap, dictionaries and operation count.
+RECURSIVE RunToEnd(_, _)
+RunToEnd(st, fuel) == IF st.status # "running" \/ fuel = 0 THEN st ELSE RunToEnd(Step(st), fuel - 1)
+SplitTransparent ==
+    (Family = "calls" /\ phase = "run" /\ s.status \in {"done", "error"}) =>
+        LET e == RunToEnd(u, 400)
+        IN /\ e.status = s.status
+           /\ (s.status = "done" => (e.ost = s.ost /\ e.dst = s.dst /\ e.heap = s.heap /\ e.nops = s.nops))
+           /\ (s.status = "error" => e.errs = s.errs)
+
 \* The budget is transparent: until it strikes, the budgeted run is in the very state of
 \* the unbudgeted one; it strikes exactly when the count passes the budget, and the
 \* count never passes budget + 1.
